@@ -20,11 +20,15 @@ from vlib import build, proto, props  # noqa: E402
 TRUSTED_BASE = [
     "Lean 4.33 kernel (thorough tier re-checks the compiled modules with leanchecker)",
     "axioms: propext, Classical.choice, Quot.sound only (audited with #print axioms on every property theorem)",
-    "translate/rs2lean.py (narrow Rust->Lean translator, fails closed) for the generated kernels, tables and constants",
+    "translate/rs2lean.py (narrow Rust->Lean expression translator plus text-level extraction, fails closed naming the item; "
+    "items G1-G10: kernels, blends, windows, loop table, nearest offsets, effect table, scalar formulas of all seven types "
+    "incl. loop control / constructors / setters / make_interpolator / FftResampler, wrapper forwarding table, ambient-state "
+    "scan, validate_buffers decision list and call sites)",
     "hand-written Lean model of the state machines, tied to /repo by the correspondence check of this run",
     "harness/ (rv-worker, public API of rubato only), check.py and vlib/ (generator, diff, oracles)",
     "Lean compiler/runtime Float, Float32 for the executable twin (never used by a theorem)",
-    "rustc/cargo, the host CPU (AVX/SSE dispatch); realfft/rustfft are outside the model",
+    "rustc/cargo, the host CPU (AVX/SSE dispatch); the algorithm of realfft/rustfft is outside the model (their result is "
+    "modelled by a naive-DFT twin compared by tolerance for blocks <= 320)",
 ]
 
 
